@@ -181,6 +181,10 @@ def arg_from_json(value: object) -> Arg:
         return value
     if not isinstance(value, dict):
         raise ValueError(f"Expected dict, got {type(value)}")
+    # An operand which is too large for a JSON number (possible with many
+    # EXTENDED_ARG prefixes) is written like a large int constant
+    if "int" in value:
+        return int(value["int"])
     if "target" in value:
         return Jump(**value)
     if "name" in value:
@@ -199,7 +203,7 @@ def arg_from_json(value: object) -> Arg:
     if "cellvar" in value:
         return Cellvar(**{**value, "cellvar": string_from_json(value["cellvar"])})
     if "_arg" in value:
-        return NoArg(**value)
+        return NoArg(**{**value, "_arg": cast(int, arg_from_json(value["_arg"]))})
     raise ValueError(f"Unsupported arg type: {type(value)}")
 
 
